@@ -667,6 +667,63 @@ pub fn run_fn(ctx: &Ctx, r: &mut Report) {
             }
         }
     }
+    // ---- B2b: the widths of the rate computation ----
+    // The uncapped adaptive rate ceil(cf * (acc*gs)^2 / 10^13) needs up to 38 bits for valid constants (acc*gs < 2^32, cf < 10^5),
+    // while the result is a u32 capped at 10^5. For every (group size, control factor) of a small alphabet and every k >= 1 the
+    // smallest accumulator whose uncapped rate reaches k * 2^32 is computed (and its two neighbours): there a rate truncated to 32
+    // bits before the cap would read as a small number. All such accumulators below the validity bound are enumerated.
+    let mut wn = 0u64;
+    let mut wwin = 0u64;
+    let mut wbad: Option<(String, Value)> = None;
+    for (ts, gs) in [(1u16, 1u16), (64, 1), (64, 64), (128, 2), (512, 512), (4096, 4096), (32768, 32768), (32768, 1)] {
+        for cf in [1u32, 1_500, 4_000, 25_000, 64_000, 99_999] {
+            let max_acc = (u32::MAX as u64 / gs as u64) as u32;
+            let k = K { ts, filter: 30, decay: 600, reduction: 5000, control: cf, max_acc, group: gs, threshold: gs };
+            let unc = |acc: u64| -> u128 {
+                let x = (acc as u128) * (gs as u128);
+                (cf as u128 * x * x + 9_999_999_999_999) / 10_000_000_000_000
+            };
+            let mut kk: u128 = 1;
+            loop {
+                let target = kk << 32;
+                if unc(max_acc as u64) < target {
+                    break;
+                }
+                // smallest acc with unc(acc) >= target, by bisection
+                let (mut lo, mut hi) = (0u64, max_acc as u64);
+                while lo < hi {
+                    let mid = lo + (hi - lo) / 2;
+                    if unc(mid) >= target {
+                        hi = mid;
+                    } else {
+                        lo = mid + 1;
+                    }
+                }
+                for acc in [lo.saturating_sub(1), lo, (lo + 1).min(max_acc as u64)] {
+                    for st in [0u16, 3000] {
+                        wn += 1;
+                        if unc(acc) >= target && (unc(acc) & 0xffff_ffff) < rf::HARD_LIMIT as u128 {
+                            wwin += 1;
+                        }
+                        if let Err(e) = check_rate(&k, st, acc, 0, 0) {
+                            if wbad.is_none() {
+                                wbad = Some((e, json!({"kind": "fn_rate", "k": k.json(), "static": st, "vref": acc, "gref": 0, "g": 0})));
+                            }
+                        }
+                    }
+                }
+                kk += 1;
+            }
+        }
+    }
+    if let Some((e, case)) = wbad {
+        if r.violations.len() < 3 {
+            r.violation(format!("fn_rate:{case}"), e, case);
+        }
+    }
+    r.set("fn_rate_width_cases", wn);
+    r.guard("fn_rate_cases_whose_uncapped_rate_reads_small_in_32_bits", wwin);
+    total += wn;
     r.set("fn_rate_cases", n2);
     r.guard("fn_rate_saturated", sat);
     r.guard("fn_rate_hard_limit", capped);
